@@ -3,7 +3,7 @@
    Model: Alg/RQ.v. g : Z -> Q is the newsvendor cost (newsvendor_poisson_cost as a function of the base-stock
    level), F the Poisson cdf, both inputs; K lam = fixed_cost * demand_mean.
    rq_cost_def g K lam r n = (K lam + sum_{y=r+1}^{r+n} g y) / n  is the documented cost (5.48). *)
-From SV Require Import Base.Qx Alg.RQ Alg.RQ_proofs.
+From SV Require Import Base.Qx Alg.RQ Alg.RQ_proofs Alg.RQTol_proofs.
 
 (* (1) r_q_cost_poisson (accumulation loop as written) equals the documented sum, also through the guards *)
 Theorem C14_poisson_cost_def g K lam r n : rq_cost_poisson g K lam r n == rq_cost_def g K lam r n.
@@ -56,16 +56,39 @@ Theorem C14_r_for_q_exit gn Qn tol fuel s r : 0 <= Qn -> r_for_q gn Qn tol fuel 
   - tol <= gn r - gn (r + Qn) <= tol /\ s - 5 * Qn <= r <= s.
 Proof. exact (r_for_q_exit gn Qn tol fuel s r). Qed.
 
-(* ... and exact equalisation minimises the cost over r. G is any antiderivative of g in the sense of the mean-value
-   bounds (satisfied by the integral in r_q_cost); g quasi-convex with minimiser s.
-   PARTIAL: the tolerance version (|g(r) - g(r+Q)| <= tol => cost within tol*|r - r'| of the minimum) and
-   s <= r + Q on exit are not proved; the harness checks them on the implementation. *)
-Definition r_for_q_minimises_statement : Prop := forall (g G : Q -> Q) (s tol : Q),
+(* ... and equalisation up to the tolerance minimises the cost over r up to tol x the distance (Alg/RQTol_proofs.v).
+   The clause as first stated here (for EVERY quasi-convex g, with no condition on the returned r) is FALSE: the bisection
+   keeps only s - 5Q <= r <= s and exits as soon as |g(r) - g(r+Q)| <= tol, so on a g that is flat (within tol) on a window left
+   of s it stops there (C14_r_for_q_minimises_as_first_stated_is_false, witness g = 0 on (-oo,-1], -1 after; s = 0; Q = 1).
+   It is TRUE (a) whenever the returned r brackets the minimiser (s <= r + Q), which C14_r_for_q_bracket guarantees when the gap
+   g(x) - g(x+Q) exceeds tol for every window left of s; and (b) unconditionally when g is convex, which is the case the
+   property is about (g = newsvendor cost of the lead-time demand). *)
+Theorem C14_r_for_q_minimises_bracketing : forall (g G : Q -> Q) (s tol : Q),
+  (forall x y, x <= y -> y <= s -> g y <= g x) -> (forall x y, s <= x -> x <= y -> g x <= g y) ->
+  (forall a b m, a <= b -> (forall x, a <= x <= b -> m <= g x) -> m * (b - a) <= G b - G a) ->
+  (forall a b m, a <= b -> (forall x, a <= x <= b -> g x <= m) -> G b - G a <= m * (b - a)) ->
+  forall fuel Qn r, 0 < Qn -> r_for_q g Qn tol fuel s = Some r -> s <= r + Qn ->
+  forall r', G (r + Qn) - G r <= G (r' + Qn) - G r' + tol * qabs (r' - r).
+Proof. exact r_for_q_minimises_corrected. Qed.
+Theorem C14_r_for_q_minimises_convex : forall (g G : Q -> Q) (s tol : Q),
+  (forall x y, x <= y -> y <= s -> g y <= g x) -> (forall x y, s <= x -> x <= y -> g x <= g y) ->
+  (forall a b m, a <= b -> (forall x, a <= x <= b -> m <= g x) -> m * (b - a) <= G b - G a) ->
+  (forall a b m, a <= b -> (forall x, a <= x <= b -> g x <= m) -> G b - G a <= m * (b - a)) ->
+  (forall x y t, 0 <= t <= 1 -> g (t * x + (1 - t) * y) <= t * g x + (1 - t) * g y) ->
+  forall fuel Qn r, 0 < Qn -> r_for_q g Qn tol fuel s = Some r ->
+  forall r', G (r + Qn) - G r <= G (r' + Qn) - G r' + tol * qabs (r' - r).
+Proof. exact r_for_q_minimises_convex. Qed.
+Theorem C14_r_for_q_bracket : forall gn Qn tol fuel s r, 0 <= Qn ->
+  (forall x, s - 5 * Qn <= x -> x + Qn < s -> tol < gn x - gn (x + Qn)) ->
+  r_for_q gn Qn tol fuel s = Some r -> r <= s <= r + Qn.
+Proof. exact r_for_q_bracket. Qed.
+Theorem C14_r_for_q_minimises_as_first_stated_is_false : ~ (forall (g G : Q -> Q) (s tol : Q),
   (forall x y, x <= y -> y <= s -> g y <= g x) -> (forall x y, s <= x -> x <= y -> g x <= g y) ->
   (forall a b m, a <= b -> (forall x, a <= x <= b -> m <= g x) -> m * (b - a) <= G b - G a) ->
   (forall a b m, a <= b -> (forall x, a <= x <= b -> g x <= m) -> G b - G a <= m * (b - a)) ->
   forall fuel Qn r, 0 < Qn -> r_for_q g Qn tol fuel s = Some r ->
-  forall r', G (r + Qn) - G r <= G (r' + Qn) - G r' + tol * qabs (r' - r).
+  forall r', G (r + Qn) - G r <= G (r' + Qn) - G r' + tol * qabs (r' - r)).
+Proof. exact r_for_q_minimises_statement_refuted. Qed.
 Theorem C14_r_for_q_minimises_partial (g G : Q -> Q) (s : Q) :
   (forall x y, x <= y -> y <= s -> g y <= g x) -> (forall x y, s <= x -> x <= y -> g x <= g y) ->
   (forall a b m, a <= b -> (forall x, a <= x <= b -> m <= g x) -> m * (b - a) <= G b - G a) ->
@@ -150,6 +173,10 @@ Print Assumptions C14_poisson_g_unimodal.
 Print Assumptions C14_poisson_exact_optimal.
 Print Assumptions C14_normal_cost_def.
 Print Assumptions C14_r_for_q_exit.
+Print Assumptions C14_r_for_q_minimises_bracketing.
+Print Assumptions C14_r_for_q_minimises_convex.
+Print Assumptions C14_r_for_q_bracket.
+Print Assumptions C14_r_for_q_minimises_as_first_stated_is_false.
 Print Assumptions C14_r_for_q_minimises_partial.
 Print Assumptions C14_eil_fixed_point.
 Print Assumptions C14_lossfn_fixed_point.
